@@ -1,6 +1,31 @@
 -- GENERATED: axiom audit for Props/C10*.lean
+import Props.C10
 import Props.C10_hier
 import Props.C10_xml
+#print axioms SpyneModel.Props.C10.facts10_catch_alls
+#print axioms SpyneModel.Props.C10.facts10_faults_kept
+#print axioms SpyneModel.Props.C10.facts10_table
+#print axioms SpyneModel.Props.C10.facts10_rejections
+#print axioms SpyneModel.Props.C10.facts10_status
+#print axioms SpyneModel.Props.C10.funnel_total
+#print axioms SpyneModel.Props.C10.funnel_total_wsgi
+#print axioms SpyneModel.Props.C10.malformed_is_client_fault
+#print axioms SpyneModel.Props.C10.codec_fault_is_the_answer
+#print axioms SpyneModel.Props.C10.transport_reject_is_client
+#print axioms SpyneModel.Props.C10.malformed_is_4xx
+#print axioms SpyneModel.Props.C10.fault_means_not_called
+#print axioms SpyneModel.Props.C10.fault_means_not_called_wsgi
+#print axioms SpyneModel.Props.C10.valid_request_called_once
+#print axioms SpyneModel.Props.C10.normal_answer_means_one_call
+#print axioms SpyneModel.Props.C10.answered_or_client_fault
+#print axioms SpyneModel.Props.C10.xml_request_called_or_client_fault
+#print axioms SpyneModel.Props.C10.soap_request_called_or_client_fault
+#print axioms SpyneModel.Props.C10.dict_request_called_or_client_fault
+#print axioms SpyneModel.Props.C10.shared_leaf_never_crashes
+#print axioms SpyneModel.Props.C10.decimal_leaf_never_crashes
+#print axioms SpyneModel.Props.C10.uuid_leaf_never_crashes
+#print axioms SpyneModel.Props.C10.double_leaf_never_crashes
+#print axioms SpyneModel.Props.C10.datetime_as_timezone_never_crashes
 #print axioms SpyneModel.Props.C10hier.facts02_body
 #print axioms SpyneModel.Props.C10hier.facts02_good
 #print axioms SpyneModel.Props.C10hier.facts02_parse
